@@ -85,10 +85,15 @@ End Handle.
 (* ---------- packing the response for a listener ---------- *)
 Inductive listener := LUdp | LTcp | LHttp.     (* LTcp: tcp, gnet, tls, quic frames; LHttp: both DoH servers *)
 
-(* udpServer.handleReq: the class of the LAST OPT of the query, floor 512 *)
+(* udpServer.handleReq: the class of the LAST OPT of the query (0 when there is none), floor 512, and — since the fix
+   of D20 — capped at the largest payload a UDP datagram can carry (65507 = 65535 - 20 - 8) *)
+Definition advertised_size (m : msg) : N :=
+  fold_left (fun acc r => if is_opt r then r_class r else acc) (m_ar m) 0%N.
+Definition max_udp_payload : N := 65507.
 Definition client_udp_size (m : msg) : N :=
-  let c := fold_left (fun acc r => if is_opt r then r_class r else acc) (m_ar m) 0%N in
-  if (c <? 512)%N then 512%N else c.
+  let c := advertised_size m in
+  let c' := if (c <? 512)%N then 512%N else c in
+  if (max_udp_payload <? c')%N then max_udp_payload else c'.
 
 Definition max_size : nat := N.to_nat 65535.
 Definition size_limit (l : listener) (m : msg) : nat :=
